@@ -539,30 +539,171 @@ Proof.
   pose proof (sstep_refused _ _ _ H') as K. rewrite E in K. exact K.
 Qed.
 
+(* ------------------------------------------------------------------ reserve, printf, string *)
+Lemma step_reserve st x len tr : inv st -> step_ok st (OReserve x len tr).
+Proof.
+  intros I. arr_guards I st x Hx Hs.
+  eapply (arr_step st (OReserve x len tr) false _ (fun h => s_reserve h (aval (sheap st) (hbuf (hnd st x))) tr));
+    auto; [arr_eq_step Hx Hs | arr_eq_spec Hx Hs | ].
+  intros cnt acc. apply array_reserve_sem, inv_aok, I.
+Qed.
+
+Lemma step_printf st x text : inv st -> step_ok st (OPrintf x text).
+Proof.
+  intros I. arr_guards I st x Hx Hs.
+  eapply (arr_step st (OPrintf x text) true _ (fun h => s_printf h (aval (sheap st) (hbuf (hnd st x))) text));
+    auto; [arr_eq_step Hx Hs | arr_eq_spec Hx Hs | ].
+  intros cnt acc. apply array_printf_sem, inv_aok, I.
+Qed.
+
+Lemma step_string st x : inv st -> step_ok st (OString x).
+Proof.
+  intros I. arr_guards I st x Hx Hs.
+  eapply (arr_step st (OString x) true _ (fun h => s_string h (aval (sheap st) (hbuf (hnd st x)))));
+    auto; [arr_eq_step Hx Hs | arr_eq_spec Hx Hs | ].
+  intros cnt acc. apply array_string_sem, inv_aok, I.
+Qed.
+
+Definition array_op (o : op) : bool :=
+  match o with OMkSlice _ _ _ _ | OWrite _ _ _ _ _ => false | _ => true end.
+
+Theorem cow_step_arrays st o : inv st -> array_op o = true -> step_ok st o.
+Proof.
+  intros I C. destruct o; try discriminate;
+    auto using step_append, step_insert, step_set, step_slice, step_clone, step_reduce,
+               step_bufinsert, step_bufcut, step_bufset, step_new, step_flags,
+               step_reserve, step_printf, step_string.
+Qed.
+
+(* ------------------------------------------------------------------ slices: creation *)
+Definition wval (hp : heap) (a : arr) (off len : nat) : sval :=
+  match a with
+  | None => None
+  | Some i => option_map (fun b => (btr b, firstn len (skipn off (bview b)))) (hget hp i)
+  end.
+
+Lemma absh_sl hp h : hsl h = true -> absh hp h = (true, wval hp (hbuf h) (hoff h) (hlen h)).
+Proof.
+  intros H. unfold absh, wval. rewrite H. destruct (hbuf h) as [i|]; [|reflexivity].
+  destruct (hget hp i); reflexivity.
+Qed.
+
+Lemma wval_hval hp hp' k off len : hval hp' k = hval hp k -> wval hp' (Some k) off len = wval hp (Some k) off len.
+Proof.
+  unfold hval, wval. destruct (hget hp' k) as [b'|], (hget hp k) as [b|]; cbn [option_map]; try discriminate; auto.
+  unfold bval. intros H. inversion H as [[Ht Hv]]. rewrite Ht, Hv. reflexivity.
+Qed.
+
+Definition window (v : sval) (off len : nat) : sval :=
+  match v with None => None | Some (t, l) => Some (t, firstn len (skipn off l)) end.
+
+Lemma wval_window hp a off len : wval hp a off len = window (aval hp a) off len.
+Proof. unfold wval, aval, window. destruct a as [i|]; [|reflexivity]. destruct (hget hp i); reflexivity. Qed.
+
+Lemma lset_abs_same_sl st x : x < length (shnd st) -> hsl (hnd st x) = true ->
+  lset (abs st) x (true, wval (sheap st) (hbuf (hnd st x)) (hoff (hnd st x)) (hlen (hnd st x))) = abs st.
+Proof. intros Hx Hs. rewrite <- (absh_sl _ _ Hs), <- nth_abs. apply lset_same. Qed.
+
+Lemma step_mkslice st x y off len : inv st -> step_ok st (OMkSlice x y off len).
+Proof.
+  intros I.
+  destruct (Nat.ltb_spec x (length (shnd st))) as [Hx|Hx].
+  2:{ apply guard_ok; [exact I| |].
+      - unfold step. cbn [target]. rewrite (proj2 (Nat.ltb_ge _ _) Hx). reflexivity.
+      - intros h. unfold sstep. cbn [target]. rewrite abs_length, (proj2 (Nat.ltb_ge _ _) Hx). reflexivity. }
+  destruct (hsl (hnd st x)) eqn:Hs.
+  2:{ apply guard_ok; [exact I| |].
+      - unfold step. cbn [target is_slice_op]. rewrite (proj2 (Nat.ltb_lt _ _) Hx), Hs. reflexivity.
+      - intros h. unfold sstep. cbn [target is_slice_op].
+        rewrite abs_length, (proj2 (Nat.ltb_lt _ _) Hx), nth_abs. unfold absh. rewrite Hs. reflexivity. }
+  unfold step_ok, step, sstep. cbn [target is_slice_op].
+  rewrite abs_length, (proj2 (Nat.ltb_lt _ _) Hx), Hs, !nth_abs, (absh_sl _ _ Hs). cbn [negb Bool.eqb].
+  destruct (Nat.ltb_spec y (length (shnd st))) as [Hy|Hy]; cbn [negb orb].
+  2:{ split; [discriminate|]. split; [exact I|reflexivity]. }
+  destruct (hsl (hnd st y)) eqn:Hsy.
+  { unfold absh. rewrite Hsy. cbn [fst]. split; [discriminate|]. split; [exact I|reflexivity]. }
+  rewrite (absh_arr _ _ Hsy). cbn [fst snd].
+  set (hp := sheap st). set (a := hbuf (hnd st x)). set (s := hbuf (hnd st y)).
+  set (v := wval hp a (hoff (hnd st x)) (hlen (hnd st x))).
+  assert (SameR : (lset (abs st) x (true, v), ORefused) = (abs st, ORefused)).
+  { subst v hp a. rewrite lset_abs_same_sl by assumption. reflexivity. }
+  assert (Hk : forall k, s = Some k -> exists c, hget hp k = Some c).
+  { intros k Hk'. destruct (inv_get st y k I Hk') as [c [Ec _]]. eauto. }
+  unfold s_mkslice, array_clone.
+  destruct (match a, s with Some i, Some k => i =? k | None, None => true | _, _ => false end) eqn:Eq.
+  - (* the slice already holds this buffer: only the window changes *)
+    assert (a = s) as Eas.
+    { destruct a as [i|], s as [k|]; try discriminate; [apply Nat.eqb_eq in Eq; subst|]; reflexivity. }
+    set (h' := mkh a true off len).
+    destruct (ptrans_sound st x a hp a h' I Hx eq_refl (P_same _ _) eq_refl) as [I' F].
+    split; [discriminate|]. split; [exact I'|]. fold hp in F.
+    rewrite (abs_frame st x hp h' Hx F), (absh_sl _ h') by reflexivity. cbn [hbuf hoff hlen h'].
+    rewrite wval_window. rewrite <- Eas.
+    assert (NR : snd (s_clone v (Some (aval hp a))) <> ORefused).
+    { subst v. rewrite wval_window. unfold s_clone, window. destruct (aval hp a) as [[t l]|]; cbn [D R snd].
+      - rewrite Nat.eqb_refl. discriminate.
+      - discriminate. }
+    destruct (s_clone v (Some (aval hp a))) as [w []]; cbn [snd] in NR; try contradiction; reflexivity.
+  - destruct a as [i|] eqn:Ea.
+    + destruct (inv_get st x i I Ea) as [b [E [W [Rf C]]]]. fold hp in E.
+      destruct s as [k|] eqn:Es.
+      * destruct (Hk k eq_refl) as [c Ec]. rewrite E, Ec.
+        assert (Hne : Some i <> Some k). { apply Nat.eqb_neq in Eq. congruence. }
+        assert (Ev : v = Some (btr b, firstn (hlen (hnd st x)) (skipn (hoff (hnd st x)) (bview b)))).
+        { subst v. unfold wval. rewrite E. reflexivity. }
+        assert (Ef : aval hp (Some k) = Some (btr c, bview c)) by (unfold aval; rewrite Ec; reflexivity).
+        rewrite Ev, Ef. cbn [s_clone].
+        destruct (Nat.eqb_spec (btr b) (btr c)) as [Tq|Tq]; cbn [negb D R snd fst].
+        -- set (h' := mkh (Some k) true off len).
+           destruct (share_sound st x (Some i) k c h' I Hx Ea Ec Hne eq_refl) as [I' [F V]].
+           split; [discriminate|]. split; [exact I'|]. fold hp in F, V. cbn [unref_opt] in *.
+           rewrite (abs_frame st x _ h' Hx F), (absh_sl _ h') by reflexivity. cbn [hbuf hoff hlen h'].
+           rewrite (wval_hval _ _ _ _ _ V). unfold wval. rewrite Ec. reflexivity.
+        -- split; [discriminate|]. split; [exact I|]. rewrite <- Ev. exact SameR.
+      * assert (Ev : v = Some (btr b, firstn (hlen (hnd st x)) (skipn (hoff (hnd st x)) (bview b)))).
+        { subst v. unfold wval. rewrite E. reflexivity. }
+        rewrite Ev. cbn [aval s_clone D snd fst].
+        set (h' := mkh None true off len).
+        destruct (drop_sound st x (Some i) h' I Hx Ea eq_refl) as [I' F].
+        split; [discriminate|]. split; [exact I'|]. fold hp in F, I'. cbn [unref_opt] in *.
+        rewrite (abs_frame st x _ h' Hx F), (absh_sl (hunref hp i) h') by reflexivity. reflexivity.
+    + destruct s as [k|] eqn:Es; [|discriminate].
+      destruct (Hk k eq_refl) as [c Ec].
+      assert (Ev : v = None) by reflexivity. rewrite Ev.
+      assert (Ef : aval hp (Some k) = Some (btr c, bview c)) by (unfold aval; rewrite Ec; reflexivity).
+      rewrite Ef. cbn [s_clone D snd fst].
+      set (h' := mkh (Some k) true off len).
+      assert (Hne : None <> Some k) by discriminate.
+      destruct (share_sound st x None k c h' I Hx Ea Ec Hne eq_refl) as [I' [F V]].
+      split; [discriminate|]. split; [exact I'|]. fold hp in F, V. cbn [unref_opt] in *.
+      rewrite (abs_frame st x _ h' Hx F), (absh_sl _ h') by reflexivity. cbn [hbuf hoff hlen h'].
+      rewrite (wval_hval _ _ _ _ _ V). unfold wval. rewrite Ec. reflexivity.
+Qed.
+
 (* ------------------------------------------------------------------ the statements of Properties.v *)
-Definition covered_op (o : op) : bool := core_op o.
+Definition covered_op (o : op) : bool := array_op o.
 
 Theorem cow_step st o : inv st -> covered_op o = true ->
   let '(st', out) := step st o in
   out <> OFault /\ inv st' /\ sstep (abs st) o (hint_of st o out) = (abs st', vis out).
-Proof. intros I C. exact (cow_step_core st o I C). Qed.
+Proof. intros I C. exact (cow_step_arrays st o I C). Qed.
 
 Theorem cow_others st o y : inv st -> covered_op o = true -> y <> target o ->
   view (fst (step st o)) y = view st y.
-Proof. intros I C. apply others_unchanged_gen. exact (cow_step_core st o I C). Qed.
+Proof. intros I C. apply others_unchanged_gen. exact (cow_step_arrays st o I C). Qed.
 
 Theorem cow_histories ops st : inv st -> forallb covered_op ops = true ->
   run_abs st ops = srun st (abs st) ops /\
   Forall (fun r => snd r <> OFault /\ inv (fst r)) (run st ops).
-Proof. apply (histories_gen covered_op). intros s o I C. exact (cow_step_core s o I C). Qed.
+Proof. apply (histories_gen covered_op). intros s o I C. exact (cow_step_arrays s o I C). Qed.
 
 Theorem refused_unchanged st o : inv st -> covered_op o = true ->
   snd (step st o) = ORefused \/ snd (step st o) = OGuard -> abs (fst (step st o)) = abs st.
-Proof. intros I C. apply refused_unchanged_gen. exact (cow_step_core st o I C). Qed.
+Proof. intros I C. apply refused_unchanged_gen. exact (cow_step_arrays st o I C). Qed.
 
 Theorem model_no_fault st o : inv st -> covered_op o = true -> snd (step st o) <> OFault.
 Proof.
-  intros I C. pose proof (cow_step_core st o I C) as S. unfold step_ok in S.
+  intros I C. pose proof (cow_step_arrays st o I C) as S. unfold step_ok in S.
   destruct (step st o) as [st' out]. tauto.
 Qed.
 
